@@ -80,6 +80,7 @@ structure St where
   buffer  : List Tok := []                    -- bp.buffer, in arrival order
   sets    : List (List Tok) := []             -- handed to the bridge, response not handled yet
   wait    : Option Tok := none                -- the token the loop holds while it sits in waitForSpace
+  stale   : Bool := false                     -- the loop's `output` variable was not recomputed after the buffer changed
 
 def setCr (c : Int → Bool) (p : Int) (v : Bool) : Int → Bool := fun k => if k = p then v else c k
 
@@ -98,7 +99,8 @@ def retryMsgs (max : Nat) (ts : List Tok) : List Action := ts.map (retryMsg max)
 /-- brokerProducer.needsRetry -/
 def needsRetry (s : St) (p : Int) : Bool := s.closing || s.cr p
 
-/-- the `case msg := <-bp.input` arm of brokerProducer.run -/
+/-- the `case msg := <-bp.input` arm of brokerProducer.run.  Every branch but the last two ends in `continue`,
+    which skips the re-computation of `output` at the bottom of the loop. -/
 def recv (max : Nat) (s : St) (t : Tok) (overflow : Bool) : St × List Action :=
   if s.wait.isSome then (s, [.disabled])
   else if t.kind = .syn then ({ s with cr := setCr s.cr t.part false }, [.ackSyn t.part])
@@ -107,18 +109,20 @@ def recv (max : Nat) (s : St) (t : Tok) (overflow : Bool) : St × List Action :=
      [.refuse t.id, retryMsg max t])
   else if t.kind = .fin then (s, [.refuse t.id, retryMsg max t])   -- a fin is never data
   else if overflow then ({ s with wait := some t }, [])              -- → waitForSpace
-  else ({ s with buffer := s.buffer ++ [t] }, [.add t.id t.part])
+  else ({ s with buffer := s.buffer ++ [t], stale := false }, [.add t.id t.part])
 
 /-- the `case output <- bp.buffer` arms (run, shutdown, waitForSpace) followed by rollOver.  The bridge goroutine
     takes a set only when it is idle, i.e. after the run loop has received the previous response.
-    The buffer may be EMPTY: the `continue` statements of the message arm skip the re-computation of `output` at
-    the bottom of the loop, so after waitForSpace has handled a response that emptied the buffer and the held
-    message was bounced, the stale `output` channel is still armed and an empty set goes to the broker. -/
+    The buffer can be EMPTY: when waitForSpace handles a response that empties the buffer and the held message
+    is bounced, the `continue` leaves the `output` variable armed (`stale`), and the next loop iteration may
+    hand an empty set to the bridge (an empty produce request goes to the broker). -/
 def handover (s : St) : St × List Action :=
   if !s.sets.isEmpty then (s, [.disabled])
   else match s.wait with
-    | none => ({ s with sets := [s.buffer], buffer := [] }, [])
-    | some t => ({ s with sets := [s.buffer], buffer := [t], wait := none }, [.add t.id t.part])
+    | none =>
+      if s.buffer.isEmpty && !s.stale then (s, [.disabled])
+      else ({ s with sets := [s.buffer], buffer := [], stale := false }, [])
+    | some t => ({ s with sets := [s.buffer], buffer := [t], wait := none, stale := false }, [.add t.id t.part])
 
 /-- tokens of `rem` grouped by partition, partitions in the order of the list (a partition is taken once) -/
 def arrange : List Int → List Tok → List Tok
@@ -166,14 +170,15 @@ def handle (max : Nat) (s : St) (sent : List Tok) : Resp → St × List Action
      Action.closing :: Action.abandon :: retryMsgs max (arrange (o1 ++ partsOf sent) sent) ++
        retryMsgs max (arrange (o2 ++ partsOf s.buffer) s.buffer))
 
-/-- the re-check of waitForSpace after handleResponse (no-op when the loop is not waiting) -/
+/-- the re-check of waitForSpace after handleResponse; when the loop is not waiting, handleResponse was called
+    from the run loop (or from shutdown) and the bottom of the loop recomputes `output` -/
 def recheck (max : Nat) (s : St) (acts : List Action) (still : Bool) : St × List Action :=
   match s.wait with
-  | none => (s, acts)
+  | none => ({ s with stale := false }, acts)
   | some t =>
-    if needsRetry s t.part then ({ s with wait := none }, acts ++ [retryMsg max t])
+    if needsRetry s t.part then ({ s with wait := none, stale := true }, acts ++ [retryMsg max t])
     else if still then (s, acts)
-    else ({ s with wait := none, buffer := s.buffer ++ [t] }, acts ++ [.add t.id t.part])
+    else ({ s with wait := none, buffer := s.buffer ++ [t], stale := false }, acts ++ [.add t.id t.part])
 
 /-- the `case response := <-bp.responses` arms: handleResponse, then (inside waitForSpace) the re-check -/
 def resp (max : Nat) (s : St) (r : Resp) (still : Bool) : St × List Action :=
